@@ -16,6 +16,7 @@ CHECKS = {
     "C20": ("c20", False),
     "C11": ("c11", False),
     "C09": ("c09", False),
+    "C10": ("c10", False),
 }
 
 
